@@ -490,16 +490,10 @@ pub fn verif_simulate_frame<Mod: Modulation, R: Rng>(
         decoder,
         max_iterations,
     };
-    let result = worker
+    worker
         .simulate(rng)
         .map(|r| (r.bit_errors, r.frame_error, r.false_decode, r.iterations))
-        .map_err(|_| ());
-    // The drop glue of the worker and of the channel ends is of no interest
-    // to a verifier and is expensive to analyse: leak them.
-    std::mem::forget(worker);
-    std::mem::forget(_results_rx);
-    std::mem::forget(_terminate_tx);
-    result
+        .map_err(|_| ())
 }
 
 impl CurrentStatistics {
